@@ -52,12 +52,14 @@ InitS == [tok |-> [v \in Accused |-> Tok0(v)], on |-> [v \in Accused |-> TRUE], 
 
 Tx(k, a, b, v, x) == [k |-> k, a |-> a, b |-> b, v |-> v, x |-> x, p |-> 1, f |-> 0, c |-> 0, r |-> 0]
 \* the abstract alphabet: a plain transfer, a refused transaction, withdrawals that leave g2 with a dust stake
-Offers == { Tx("transfer", "u1", "u2", "g1", 5), Tx("badnonce", "u1", "u2", "g1", 1),
+\* "widegas" is a transfer whose gas LIMIT is nearly the block's gas limit (gas-limit class "near"; a transfer's own limit
+\* is exact)
+Offers == { Tx("transfer", "u1", "u2", "g1", 5), Tx("badnonce", "u1", "u2", "g1", 1), Tx("widegas", "u2", "u1", "g1", 3),
             Tx("withdraw", "g2", "u1", "g2", 470), Tx("withdraw", "g3", "u1", "g3", 100) }
 RefusedTx(t) == t.k = "badnonce"
 
 \* ---------------------------------------------------------------- the shared transition function
-ApplyTx(s, t) == CASE t.k = "transfer" -> [s EXCEPT !.fees = @ + 1]
+ApplyTx(s, t) == CASE t.k \in {"transfer", "widegas"} -> [s EXCEPT !.fees = @ + 1]
                    [] t.k = "withdraw" -> [s EXCEPT !.fees = @ + 1, !.pend = Append(@, t)]
                    [] OTHER -> s
 RECURSIVE ApplyTxs(_, _)
